@@ -357,3 +357,7 @@ def check(run, replay=None):
         run.require_counter("steps_compared", 10000)
     finally:
         shutil.rmtree(tmpdir, ignore_errors=True)
+
+
+# workloads added in seeding rounds 7-10 (DESIGN.md sections 13.9-13.12)
+LEVEL_TEXT = LEVEL_TEXT + ' Later additions: columns of another length offered to a table that has columns (also an emptied one): refused or the table stays rectangular.'
